@@ -42,7 +42,7 @@ def run(ctx):
     ctx.rule = ("one case per state of WsFrameStreams (a frame stream, possibly cut or hostile, for one role), WsFrameSizes "
                 "(a message size / fragmentation / key, as receiver and as sender) and WsFrameHs (a handshake); "
                 "non-trivial = non-empty stream; distinct = distinct case lines")
-    args = ["--case-timeout-ms", "15000"]
+    args = ["--case-timeout-ms", "15000", "--batch", "400"]
     c = _cases(ctx, "WsFrameHs", "MC_WsFrameHs_" + tier, "c11-hs.cases", ctx.pick(300, 1200), xss="512m")
     ctx.replay(rep, c, label="R/WsFrameHs", args=args, timeout=ctx.pick(300, 1200), env=ENV, jobs=4)
     os.unlink(c)
